@@ -53,6 +53,8 @@ namespace details {
         client_characteristic_configuration client_config;
         connection_security_attributes      connection_security;
         void*                               server;
+        // true, if the attribute is read to be send as notification or indication
+        bool                                notification;
 
         template < std::size_t N >
         static constexpr attribute_access_arguments read(
@@ -68,7 +70,8 @@ namespace details {
                 offset,
                 cc,
                 cs,
-                nullptr
+                nullptr,
+                false
             };
         }
 
@@ -87,7 +90,8 @@ namespace details {
                 offset,
                 cc,
                 cs,
-                server
+                server,
+                false
             };
         }
 
@@ -103,7 +107,8 @@ namespace details {
                 offset,
                 cc,
                 cs,
-                nullptr
+                nullptr,
+                false
             };
         }
 
@@ -121,7 +126,8 @@ namespace details {
                 offset,
                 cc,
                 cs,
-                server
+                server,
+                false
             };
         }
 
@@ -134,7 +140,8 @@ namespace details {
                 0,
                 client_characteristic_configuration(),
                 connection_security_attributes(),
-                server
+                server,
+                false
             };
         }
 
@@ -147,7 +154,8 @@ namespace details {
                 0,
                 client_characteristic_configuration(),
                 connection_security_attributes(),
-                nullptr
+                nullptr,
+                false
             };
         }
 
@@ -162,7 +170,8 @@ namespace details {
                 0,
                 client_characteristic_configuration(),
                 connection_security_attributes(),
-                nullptr
+                nullptr,
+                false
             };
         }
     };
